@@ -49,6 +49,10 @@ type c03script struct {
 	// methods: with compression on, the frame method the server uses for each item (a server may
 	// answer with any method, and with different ones within one connection)
 	methods []byte
+	// C08: the byte stream goes on after the response - the answer to the follow-up Ping is already
+	// behind its last packet, in the same write of the server - so that the bytes read ahead with the
+	// end of the response belong to the next exchange.
+	earlyPong bool
 }
 
 func (s c03script) methodOf(i int) byte {
@@ -331,6 +335,12 @@ func runScriptOpts(rt *rapid.T, s c03script, segsFor func(i int, n int) []int, g
 			e.srv.Steps = append(e.srv.Steps, head, tail)
 			continue
 		}
+		// (not behind a packet the server pauses in: the pause would delay the pong past the ping's own read timeout)
+		if s.earlyPong && i == len(s.items)-1 {
+			inner := st.Bytes
+			st.Bytes = func(cs *ref.ClientStream) []byte { return append(append([]byte(nil), inner(cs)...), ref.ServerPongCode) }
+			e.earlyPong = true
+		}
 		e.srv.Steps = append(e.srv.Steps, st)
 	}
 	opt := baseOptions(s.clientRev, s.comp)
@@ -603,6 +613,7 @@ func TestC08ClientSegmentation(t *testing.T) {
 	st := stats.G()
 	rapid.Check(t, func(rt *rapid.T) {
 		s := drawScript(rt)
+		s.earlyPong = rapid.IntRange(0, 3).Draw(rt, "stream-continues-with-the-next-answer") == 0
 		family := rapid.SampledFrom([]string{"one-byte", "two-piece", "random", "gaps", "gaps+one-byte", "pause-inside-packet", "pause-inside-packet", "no-timeout"}).Draw(rt, "family")
 		pauses := map[int]int{}
 		for i, n := 0, rapid.IntRange(1, 3).Draw(rt, "paused-packets"); i < n; i++ {
@@ -624,7 +635,7 @@ func TestC08ClientSegmentation(t *testing.T) {
 				defer e.conn.ForceClose()
 				r.out = out
 				// Follow-up ping on the same connection: same outcome <=> same number of bytes consumed.
-				e.srv.AutoPong = true
+				e.srv.AutoPong = !e.earlyPong // the early pong is the only answer the ping gets
 				client := e.client
 				perr := client.Ping(context.Background())
 				r.ping = fmt.Sprint(perr)
